@@ -49,7 +49,7 @@ REQUIRED = {
     "all": dict([("class:" + c, 1 if c == "param_update" else 16) for c in CLASSES] + [
         ("param_update_checks", 36),
         ("warm_direct_checked", 120), ("warm_direct_index0", 80), ("warm_direct_index2", 20), ("warm_direct_jaxsafe", 16),
-        ("warm_direct_landing_checked", 25), ("warm_direct_zero_change", 4), ("warm_direct_multi_iteration_cg", 30),
+        ("warm_direct_landing_checked", 25), ("warm_direct_prehistory_foreign_p", 60), ("warm_direct_zero_change", 4), ("warm_direct_multi_iteration_cg", 30),
         ("insitu_warm_start_calls", 200), ("insitu_landing_checked", 15), ("insitu_linearisation_point_checked", 200),
         ("entry_point_checked_warm", 200), ("entry_point_checked_cold", 200),
         ("warm_nl_scaled_nonzero:nes", 12), ("warm_nl_scaled_nonzero:spg", 8), ("warm_nl_scaled_nonzero:bcs", 8),
@@ -456,6 +456,24 @@ def _run_warm_direct(case, res):
             obj.update_precond(np.array(xbar + S * rng.standard_normal(n) * 1.0 / E["dofscale"]))
         else:
             obj.update_precond(np.array(xbar))
+        # evaluation history: the same objective has been evaluated at exactly this point under OTHER parameters before
+        # (a design / load study re-starting from one state); the parameters are then put back.  Whatever the object
+        # remembers from those calls, the increment must be the one for (x, p_old) -> p_new.
+        rng2 = rng_of(case["seed"] + 104729)
+        if rng2.random() < 0.6:
+            alt = list(old)
+            alt[0] = old[0] + rng2.standard_normal(len(old[0])) * 0.5
+            alt[2] = old[2] + rng2.standard_normal(gen.NP2) * 0.8
+            alt[4] = float(old[4]) + float(rng2.uniform(0.1, 0.5))
+            p_keep = obj.p
+            obj.p = _params(alt)
+            xa = np.array(xbar)
+            for _ in range(int(rng2.integers(1, 3))):
+                obj.value(xa)
+                obj.gradient(xa)
+                obj.hessian_vec(xa, np.array(rng2.standard_normal(n)))
+            obj.p = p_keep
+            res.count("warm_direct_prehistory_foreign_p")
         del _REC[:]
         if cls == "warm_direct_jaxsafe":
             dx = WarmStart.warm_start_increment_jax_safe(obj, np.array(xbar), p_new[0])
